@@ -477,7 +477,12 @@ func runAgree(c agreeCase) (pbt.Result, error) {
 	gen.Apply(raw, c.Muts)
 	segs, _ := hx.Carve(raw)
 	open := func() (air.Z, error) {
-		m := &capnp.Message{Arena: capnp.MultiSegment(segs), TraverseLimit: 1 << 40}
+		limit := uint64(1 << 40)
+		if len(c.Muts) > 0 {
+			// a mutated word can announce a list of 2^29 elements; pogs spends ~0.5 ms per extracted struct
+			limit = 64 << 10
+		}
+		m := &capnp.Message{Arena: capnp.MultiSegment(segs), TraverseLimit: limit}
 		return air.ReadRootZ(m)
 	}
 	z, err := open()
